@@ -78,7 +78,11 @@ func ownerID(sh util.Uint160) []byte {
 }
 
 // makeBlob builds a container BLOB (V2 layout): 0x0a, L, version[L], 4 bytes, owner[25], tail.
-func makeBlob(owner []byte, verLen int, nonce int) []byte {
+func makeBlob(owner []byte, verLen int, nonce int) []byte { return makeBlobPad(owner, verLen, nonce, 0) }
+
+// makeBlobPad: the same with the tail grown until the whole BLOB is `total` bytes long (0: shortest). Lengths of 253
+// bytes and more take a three-byte length prefix in the VM's serialization of the stored record (seeded change C04-11).
+func makeBlobPad(owner []byte, verLen int, nonce int, total int) []byte {
 	b := []byte{0x0a, byte(verLen)}
 	for i := 0; i < verLen; i++ {
 		b = append(b, byte(i+1))
@@ -87,7 +91,11 @@ func makeBlob(owner []byte, verLen int, nonce int) []byte {
 	b = append(b, owner...)
 	b = append(b, 0x1a, 0x10)
 	h := sha256.Sum256([]byte(fmt.Sprintf("nonce-%d", nonce)))
-	return append(b, h[:16]...)
+	b = append(b, h[:16]...)
+	for i := 0; len(b) < total; i++ {
+		b = append(b, h[i%32]^byte(i))
+	}
+	return b
 }
 
 func cidOf(blob []byte) []byte {
@@ -145,7 +153,12 @@ func newEnv(b *runner.Batch, n int, fee, aliasFee int64, ownersAreMembers bool) 
 
 func (e *env) newBlob(owner int, verLen int) blobT {
 	e.seq++
-	d := makeBlob(e.owners[owner].id, verLen, e.seq+1000*e.b.Index)
+	total := 0
+	if e.b.Rng.IntN(5) == 0 {
+		total = runner.Pick(e.b.Rng, []int{200, 252, 253, 254, 255, 256, 257, 300, 1000, 4000})
+		e.b.Hit(fmt.Sprintf("container-of-%d-bytes", total))
+	}
+	d := makeBlobPad(e.owners[owner].id, verLen, e.seq+1000*e.b.Index, total)
 	bt := blobT{owner: owner, data: d, cid: cidOf(d)}
 	e.blobs = append(e.blobs, bt)
 	return bt
